@@ -130,3 +130,21 @@ def converges(e_lo, e_hi, p, floor=1e-9, cap=None, slack=1.5):
 # caps: two decades above the largest legitimate relative error measured on
 # the unchanged tree at the finer resolution (N=32 periodic, one wavelength)
 CAPS = {2: 3e-1, 4: 3e-2, 6: 3e-3, 8: 1e-3}
+
+
+def order_dependence(desc, seed, p, N, keys, forward_values, **build_kw):
+    """Second fresh instance, same inputs, keys requested in REVERSE order:
+    every value must agree with the forward-order one (same formulas, same
+    inputs) to round-off, or the two orders differ at most by the
+    discretisation error of a branch guard (judged by the caller).  Returns
+    {key: relative difference}."""
+    rel, st, XYZ, inp = build_core(desc, seed, p, N, **build_kw)
+    out = {}
+    with quiet():
+        for k in reversed(list(keys)):
+            v = np.asarray(rel[k])
+            f = np.asarray(forward_values[k])
+            sc = max(float(np.abs(f).max()), 1e-3)
+            out[k] = (float(np.abs(v - f).max()) / sc
+                      if v.shape == f.shape else float('inf'))
+    return out
